@@ -13,6 +13,11 @@ fn parse_model(text: &str) -> Option<Vec<u64>> {
     let j = text[i..].find(']')? + i;
     Some(text[i..j].split(',').filter(|s| !s.trim().is_empty()).map(|s| s.trim().parse().unwrap()).collect())
 }
+fn parse_choices(text: &str) -> Option<Vec<usize>> {
+    let i = text.find("\"choices\":[")? + 11;
+    let j = text[i..].find(']')? + i;
+    Some(text[i..j].split(',').filter(|s| !s.trim().is_empty()).map(|s| s.trim().parse().unwrap()).collect())
+}
 fn parse_str(text: &str, key: &str) -> Option<String> {
     let pat = format!("\"{}\":\"", key);
     let i = text.find(&pat)? + pat.len();
@@ -65,18 +70,23 @@ fn main() {
         let text = std::fs::read_to_string(&path).expect("replay file");
         let model = parse_model(&text).expect("model in replay file");
         let jname = parse_str(&text, "job").expect("job in replay file");
-        jobs.retain(|j| j.name == jname);
+        let choices = parse_choices(&text).unwrap_or_default();
+        // a split job is named "<base> ids[..]": replay the base generator with all choices pinned
+        let base = jname.split(" ids[").next().unwrap().to_string();
+        jobs.retain(|j| j.name == jname || j.name.split(" ids[").next().unwrap() == base);
+        jobs.truncate(1);
         if jobs.is_empty() {
             eprintln!("replay: job {:?} not found in tier", jname);
             std::process::exit(2);
         }
         for j in jobs.iter_mut() {
             j.cfg.pin = Some(std::sync::Arc::new(model.clone()));
+            j.cfg.pin_choices = Some(std::sync::Arc::new(choices.clone()));
             j.mandatory = true;
         }
         let res = run_jobs(jobs, 1, None);
         let sum = summarise(&res, def.functions, "replay", "pinned model");
-        if let Some((job, Verdict::Violation { what, inputs, native, .. })) = sum.violations.first() {
+        if let Some((job, Verdict::Violation { what, inputs, native, .. }, _)) = sum.violations.first() {
             println!("REPLAY reproduced: {} :: {}\n inputs={}\n native={}", job, what, inputs, native);
             println!("VIOLATION property={} replay={}", id, path);
             std::process::exit(1);
@@ -103,7 +113,7 @@ fn main() {
     // ---- replay files
     let mut vio_json = vec![];
     let _ = std::fs::create_dir_all("replays");
-    for (k, (job, v)) in sum.violations.iter().enumerate().take(8) {
+    for (k, (job, v, choices)) in sum.violations.iter().enumerate().take(8) {
         if let Verdict::Violation { what, model, inputs, native } = v {
             let path = format!("replays/{}{}-{}-{}.json", id, if cfg!(debug_assertions) { "" } else { "rel" }, seed, k);
             let body = J::obj(vec![
@@ -113,7 +123,8 @@ fn main() {
                 ("tier", J::s(if tier == Tier::Quick { "quick" } else { "thorough" })),
                 ("job", J::s(job)),
                 ("what", J::s(what)),
-                ("model", J::A(model.iter().map(|x| J::I(*x as i64)).collect())),
+                ("model", J::A(model.iter().map(|x| J::Raw(x.to_string())).collect())),
+                ("choices", J::A(choices.iter().map(|x| J::I(*x as i64)).collect())),
                 ("inputs", J::Raw(inputs.clone())),
                 ("native_outcome", J::Raw(native.clone())),
             ]);
